@@ -58,8 +58,10 @@ pub open spec fn no_adjacent_repeat(s: Seq<u32>) -> bool { forall|i: int| 0 <= i
 #[verifier::external_body]
 pub fn dedup_u32(v: &mut Vec<u32>)
     ensures no_adjacent_repeat(final(v)@), same_set(old(v)@, final(v)@), final(v)@.len() <= old(v)@.len(),
-        // order of the survivors is the order they had (a subsequence): non-decreasing input stays non-decreasing
+        // order of the survivors is the order they had (a subsequence): non-decreasing input stays non-decreasing,
+        // and then (no adjacent repeat) it is strictly increasing -- lemma_strict proves that step from the two clauses
         non_decreasing(old(v)@) ==> non_decreasing(final(v)@),
+        non_decreasing(old(v)@) ==> strictly_increasing(final(v)@),
 { v.dedup() }
 
 pub proof fn lemma_strict(s: Seq<u32>)
@@ -81,16 +83,13 @@ fn manual_zoom_list(zooms: &Vec<u32>) -> (r: Vec<u32>)
         
         nonzero_members(zooms@, r@),
 {
+    {
             // Zoom levels are listed with strictly increasing resolution
             let mut zooms: Vec<u32> = nonzero_copy(zooms);
             sort_unstable_u32(&mut zooms);
             dedup_u32(&mut zooms);
-
-            proof {
-                // sorted then de-duplicated = strictly increasing; membership is preserved by both steps
-                if non_decreasing(zooms@) && no_adjacent_repeat(zooms@) { lemma_strict(zooms@); }
-            }
             zooms
+        }
 }
 
 // ---- the threshold the automatic branch starts from: `let min_first_zoom_size = ..;` (first statement) ----
